@@ -172,10 +172,10 @@ theorem nextChange_one (a b d : Int) (hab : a < b) :
       = if b < d then dateEnd else if a ≤ d then (succ? b).getD dateEnd else a := by
   have h1 : ¬ (b < a) := by omega
   have h2 : (a == b) = false := by simp; omega
-  have e : intervalsFromBounds [a] [b] = [(a, b), (dateStart, b)] := by
+  have e : intervalsFromBounds [a] [b] = [(a, b)] := by
     simp only [intervalsFromBounds, ensureIncreasing, ensureIncAux]
     rw [intervalsGo_cons_cons a [] [b] b [] (dropWhile_lt_keep _ _ _ (by omega))]
-    simp [h2, intervalsGo_nil_cons, intervalsGo_nil_nil]
+    simp [h2, intervalsGo_nil]
   rw [e]
   unfold nextChangeFromIntervals
   by_cases hb : b < d
@@ -188,7 +188,7 @@ theorem nextChange_two (a1 b1 a2 b2 d : Int) (h1 : a1 < b1) (h2 : b1 < a2) (h3 :
     nextChangeFromIntervals d (intervalsFromBounds [a1, a2] [b1, b2])
       = if d ≤ b1 then (if a1 ≤ d then (succ? b1).getD dateEnd else a1)
         else if d ≤ b2 then (if a2 ≤ d then (succ? b2).getD dateEnd else a2) else dateEnd := by
-  have e : intervalsFromBounds [a1, a2] [b1, b2] = [(a1, b1), (a2, b2), (dateStart, b2)] := by
+  have e : intervalsFromBounds [a1, a2] [b1, b2] = [(a1, b1), (a2, b2)] := by
     have g1 : ¬ (a2 ≤ a1) := by omega
     have g2 : ¬ (b2 ≤ b1) := by omega
     simp only [intervalsFromBounds, ensureIncreasing, ensureIncAux, if_neg g1, if_neg g2]
@@ -197,7 +197,7 @@ theorem nextChange_two (a1 b1 a2 b2 d : Int) (h1 : a1 < b1) (h2 : b1 < a2) (h3 :
     rw [intervalsGo_cons_cons a2 [] [b1, b2] b2 []
       (by rw [dropWhile_lt_drop _ _ _ (by omega)]; exact dropWhile_lt_keep _ _ _ (by omega))]
     rw [if_neg (by simp; omega)]
-    simp [intervalsGo_nil_cons, intervalsGo_nil_nil]
+    simp [intervalsGo_nil]
   rw [e]
   unfold nextChangeFromIntervals
   by_cases c1 : d ≤ b1
